@@ -3,7 +3,7 @@
    The monitor never looks at the model's state: the data before a write is the data
    the previous operation returned (the Store observation), the data after it is the
    Store observation of the write itself. *)
-From Verif Require Import Base.Prelude Model.Schema Model.Update Model.FunctionStore Spec.UpdateSpec.
+From Verif Require Import Base.Prelude Model.Schema Model.Update Model.FunctionStore Model.WriteStore Spec.UpdateSpec.
 
 Section Spec.
   Variable sch : schema.
@@ -110,6 +110,8 @@ Definition CL_ACCEPT : Z := 4.      (* accepted although it addresses a protecte
 Definition CL_ERR : Z := 5.         (* answered with an error (or not applied), yet the data changed *)
 Definition CL_OK : Z := 6.          (* answered with success, yet not all changes were applied *)
 Definition CL_WSHAPE : Z := 7.      (* malformed observation list *)
+Definition CL_OVERLAP : Z := 8.     (* a remote write overlapped by a local update of other elements: the data afterwards
+                                       is not what the two give one after the other (an update was lost or undone) *)
 
 Record wmst := { wm_sch : schema; wm_direct : bool; wm_last : list item }.
 Definition wminit : wmst := {| wm_sch := empty_schema; wm_direct := false; wm_last := [] |}.
@@ -179,7 +181,7 @@ Definition wscope (s : wsst) (o : op) : wsst :=
   end.
 
 Definition wexcuses (s : wsst) : list Z :=
-  if ws_oos s then [CL_PROTECTED; CL_FLAG; CL_UNADDRESSED; CL_ACCEPT; CL_ERR; CL_OK]
+  if ws_oos s then [CL_PROTECTED; CL_FLAG; CL_UNADDRESSED; CL_ACCEPT; CL_ERR; CL_OK; CL_OVERLAP]
   else if ws_fullw s then [CL_PROTECTED; CL_FLAG; CL_ACCEPT] else [].
 
 Fixpoint wjudge (m : wmst) (s : wsst) (tr : list (op * list obs)) : list (verdict * list Z) :=
@@ -189,4 +191,60 @@ Fixpoint wjudge (m : wmst) (s : wsst) (tr : list (op * list obs)) : list (verdic
       let '(m1, v) := wmon m o out in
       let s1 := wscope s o in
       (v, wexcuses s1) :: wjudge m1 s1 r
+  end.
+
+(* ---- overlapping updates (Model/WriteStore.v) ---- *)
+
+(* what a local identified partial update does to a list (C02's rule, on lists): merge into the
+   items it names, append the items whose identifier is new *)
+Definition spec_local (s : schema) (u : upd) (l : list item) : list item :=
+  map (fun y => match key_of s y with
+                | Some k => match lfind s k (u_new u) with Some x => overlay x y | None => y end
+                | None => y
+                end) l ++
+  filter (fun x => match key_of s x with Some k => negb (mem_key k (keys_of s l)) | None => false end) (u_new u).
+
+(* a partial update with identifiers and nothing else: partial filter without selectors / elements, no
+   delete filter, a non-empty list with complete, pairwise distinct identifiers *)
+Definition merge_shape (s : schema) (u : upd) : bool :=
+  is_some (u_fp u) && negb (is_some (filter_data (u_fp u))) && negb (is_some (u_fd u)) &&
+  wf_items s (u_new u) && negb (match u_new u with [] => true | _ => false end).
+
+Definition disjoint_keys (s : schema) (a b : upd) : bool :=
+  forallb (fun k => negb (mem_key k (keys_of s (u_new b)))) (keys_of s (u_new a)).
+
+(* the pairs that commute: both are such updates and they name disjoint identifiers *)
+Definition overlap_ok (s : schema) (w l : upd) : bool := merge_shape s w && merge_shape s l && disjoint_keys s w l.
+
+Definition womon (m : wmst) (o : wop) (out : list obs) : wmst * verdict :=
+  match o with
+  | Seq o => wmon m o out
+  | Overlap w l =>
+      match out with
+      | Res cw :: Res cl :: Store so :: _ =>
+          let s := wm_sch m in
+          let pre := wm_last m in
+          let post := olist so in
+          ({| wm_sch := s; wm_direct := wm_direct m; wm_last := post |},
+           (if accept_ok s false cw w pre then [] else [CL_ACCEPT]) ++
+           (if N.eqb cl 0 && perm_eqb post (spec_local s l (if N.eqb cw 0 then spec_write s false w pre else pre))
+            then [] else [CL_OVERLAP]))
+      | _ => (m, [CL_WSHAPE])
+      end
+  end.
+
+Definition woscope (s : wsst) (o : wop) : wsst :=
+  match o with
+  | Seq o => wscope s o
+  | Overlap w l => {| ws_sch := ws_sch s; ws_direct := ws_direct s;
+                      ws_oos := ws_oos s || ws_direct s || negb (overlap_ok (ws_sch s) w l); ws_fullw := false |}
+  end.
+
+Fixpoint wojudge (m : wmst) (s : wsst) (tr : list (wop * list obs)) : list (verdict * list Z) :=
+  match tr with
+  | [] => []
+  | (o, out) :: r =>
+      let '(m1, v) := womon m o out in
+      let s1 := woscope s o in
+      (v, wexcuses s1) :: wojudge m1 s1 r
   end.
